@@ -314,7 +314,7 @@ def r4(ctx, tables):
 def r5(ctx, tables):
     """'every candidate it learned of was contacted' starts with every reported peer becoming a candidate"""
     facts = ctx.facts
-    rule = Rule("C10.R5", "on_success makes every reported peer a candidate: the loop runs over the whole answer and every iteration reaches the insert; the Service passes the whole admissible answer", floor=6,
+    rule = Rule("C10.R5", "on_success makes every reported peer a candidate: the loop runs over the whole answer and every iteration reaches the insert; the Service passes the whole admissible answer and returns one record per id", floor=8,
                 engine="A-prov + A-path")
     for which in ("closest", "predicate"):
         meta = tables[which][1]
@@ -373,6 +373,40 @@ def r5(ctx, tables):
     rule.check(not late, "the answer is not reduced after the lookup it belongs to was found", "discovered|reduced-for-query",
                "Service::discovered applies %s to the answer after looking the query up: records the lookup has merely seen (its routing-table snapshot) but not taken as "
                "candidates are withheld from it and never contacted" % ", ".join(late), loc=db.loc(db.line))
+    # "at most k distinct nodes": the lookup's list of seen records holds one record per node id, and the result handed to the caller takes one
+    # record per id of the state machine's result
+    dg = Guards(db, dp, facts)
+    pushes = [(bi, t) for bi, t in db.calls() if re.search(r"(SmallVec|Vec)(::<.*>)?::push$", short(t.callee() or "")) and "untrusted_enrs" in fmt_short(dp.operand(t.args[0]))]
+    by_id = []
+    for bi, t, e in dg.switches():
+        ce = canon(e)
+        neg = False
+        while ce[0] == "un" and ce[1] == "Not":
+            ce, neg = ce[2], not neg
+        if ce[0] == "call" and re.search(r"Iterator>?::(any|all)$", short(ce[1])) and "untrusted_enrs" in fmt_short(ce):
+            clo = [x for x in walk(ce) if x[0] == "agg" and isinstance(x[1], str) and x[1].startswith("closure:")]
+            cb = facts.bodies.get(clo[0][1][len("closure:"):]) if clo else None
+            if cb is None:
+                continue
+            cc = comparison(canon(Prov(cb, facts).local(0)))
+            if cc and cc[0] == "==" and all(re.match(r"Enr::node_id\(", fmt_short(x)) for x in (cc[1], cc[2])) and short(ce[1]).endswith("any"):
+                f_, tr_ = dg.bool_edges(bi)
+                by_id.append((bi, tr_ if neg else f_))      # the edge on which no seen record has this id
+                rule.analysed(cb)
+    r_ = db.reachable(0, removed_edges=by_id)
+    rule.check(bool(pushes) and bool(by_id) and not any(bi in r_ for bi, _ in pushes), "a record joins the lookup's seen records only if no seen record has its node id",
+               "discovered|seen-by-id", "Service::discovered adds a record to the lookup's list of seen records without testing that no record with the same node id is in it "
+               "(comparing whole records lets a second version of a node's record in): the node then appears twice in the result handed to the caller", loc=db.loc(db.line))
+    st = facts.coroutine_of(SV + "start")
+    rule.analysed(st)
+    sp = Prov(st, facts)
+    res = [(bi, t) for bi, t in st.calls() if short(t.callee() or "").endswith("query_pool::Query::into_result")]
+    adds = [(bi, t) for bi, t in st.calls() if t.args and re.search(r"Vec(::<.*>)?::(push|extend|append|extend_from_slice|insert)$|Extend(<.*>)?>?::extend$", short(t.callee() or "")) and
+            any(res and st.dominates(rb, bi) for rb, _ in res) and len(t.args) > 1 and
+            any(y[0] == "call" and (short(y[1]).endswith("Query::into_result") or short(y[1]).endswith("Service::find_enr")) for y in walk(sp.operand(t.args[1])))]
+    multi = [short(t.callee() or "").split("::")[-1] for bi, t in adds if not short(t.callee() or "").endswith("::push")]
+    rule.check(bool(res) and bool(adds) and not multi, "the caller's result gets one record per node id of the lookup's result (push, never a bulk add)", "result|one-per-id",
+               "Service::start fills the caller's result with %s: a node can be returned more than once" % ", ".join(multi), loc=st.loc(st.line))
     return rule
 
 
